@@ -361,6 +361,11 @@ func (o OneOfSchema[KeyType]) getTypedDiscriminator(discriminator any) (KeyType,
 func (o OneOfSchema[KeyType]) findUnderlyingType(data any) (KeyType, Object, error) {
 	var nilKey KeyType
 
+	if data == nil {
+		return nilKey, nil, &ConstraintError{
+			Message: "Invalid type for one-of type: nil given, expected struct or map.",
+		}
+	}
 	reflectedType := reflect.TypeOf(data)
 	if reflectedType.Kind() != reflect.Struct &&
 		reflectedType.Kind() != reflect.Map &&
@@ -376,7 +381,16 @@ func (o OneOfSchema[KeyType]) findUnderlyingType(data any) (KeyType, Object, err
 
 	var foundKey *KeyType
 	if reflectedType.Kind() == reflect.Map {
-		myKey, mySchemaObj, err := o.validateMap(data.(map[string]any))
+		dataMap, ok := data.(map[string]any)
+		if !ok {
+			return nilKey, nil, &ConstraintError{
+				Message: fmt.Sprintf(
+					"Invalid type for one-of type: '%T' expected struct or map[string]any.",
+					data,
+				),
+			}
+		}
+		myKey, mySchemaObj, err := o.validateMap(dataMap)
 		if err != nil {
 			return nilKey, nil, err
 		}
